@@ -171,8 +171,12 @@ def lets(root):
     """name -> init for every simple `let name = init;` in root (last one wins)"""
     env = {}
     for n in walk(root):
-        if n["k"] == "Local" and n["pat"]["k"] == "PIdent" and n["init"] is not None:
-            env[n["pat"]["name"]] = n["init"]
+        if n["k"] == "Local" and n["init"] is not None:
+            p = n["pat"]
+            if p["k"] == "PType":
+                p = p["pat"]
+            if p["k"] == "PIdent":
+                env[p["name"]] = n["init"]
     return env
 
 
